@@ -7,6 +7,24 @@ def run(ck):
     ck.oblige("lockset: every guarded access holds its guard on every path of %d thread-safe functions + thread mains" % len(side.get("threadsafe", [])), ok and not diag, "; ".join(d["what"] for d in diag[:3]))
     for d in diag[:5]:
         ck.violation("lockset." + d["entry"] + "." + d["what"][:50], {"property": "C10", "failing_path": d, "note": "unguarded access on this call chain; two threads running it concurrently with any writer of the same global race"}, no_input=True)
+    # concurrency probe on the real code (supporting evidence and search for a concrete failing input)
+    import flowgen, C01
+    from vlib import Rng, hexs, unhex
+    exe = vlib.build_harness()
+    rr = Rng(ck.seed).fork("C10race"); probe = ["start 1 - 0"]; pm = []
+    for i in range(6 if ck.tier == "quick" else 60):
+        a = C01.gen_msg(rr, 20); b = C01.gen_msg(rr, 20); pm.append((a, b))
+        probe += ["case r%d" % i, "cap 0", "flush", "race_flush %s %s" % (hexs(a), hexs(b)), "flush"]
+    rc, out, err = vlib.run_driver(exe, "\n".join(probe) + "\n", timeout=120)
+    pc = vlib.split_cases(out); race_bad = 0
+    for i, (a, b) in enumerate(pm):
+        chunks = [unhex(l[2:]) for l in pc.get("r%d" % i, []) if l.startswith("w ")]
+        pk = flowgen.decode_wire(chunks)
+        if pk is None or sorted(hexs(m) for p in pk for m in p) != sorted([hexs(a), hexs(b)]):
+            race_bad += 1
+            ck.violation("race.flush-vs-write-callback", {"property": "C10", "scenario": "thread 1: add A, flush (slow write callback); thread 2 meanwhile: add B, flush",
+                         "A": hexs(a), "B": hexs(b), "wire_chunks": [hexs(c) for c in chunks], "reason": "concurrent flush corrupted the packet being written"})
+    ck.oblige("concurrency probe: flush racing a slow write callback (%d runs)" % len(pm), race_bad == 0, "%d bad" % race_bad)
     ck.coverage.update({"evaluations": side.get("contexts", 0), "distinct_nontrivial": len(side.get("globals", [])),
                         "rule": "all thread-safe public functions and internal threads checked context-sensitively against the guard table (guards from the 'guarded by' comments of bidib_state_intern.h plus the fixed table in the translator); distinct_nontrivial = guarded globals / guarded calls",
                         "samples": [{"global": g, "guard": l} for g, l in list(side.get("guards", {}).items())[:8]], "exhaustive": True})
